@@ -4,14 +4,16 @@ use crate::runner::Prop;
 pub mod c01;
 pub mod c02;
 pub mod c03;
+pub mod c17;
 
 pub fn all() -> Vec<Prop> {
-    vec![c01::prop(), c02::prop(), c03::prop()]
+    vec![c01::prop(), c02::prop(), c03::prop(), c17::prop()]
 }
 
 /// Auxiliary child entry points used by custom stages (`verif aux --prop ID ...`).
 pub fn aux(id: &str, _args: &[String]) -> i32 {
     match id {
+        "C17" => c17::aux(_args),
         _ => {
             eprintln!("no aux entry for {}", id);
             4
